@@ -378,7 +378,7 @@ def rule_manager(ctx: Ctx) -> None:
             continue
         GT = S(e_gt.kwargs.get("objects"))[: -len(".objects")] if S(e_gt.kwargs.get("objects")).endswith(".objects") else "?"
         ctx.check(S(e_est.kwargs.get("objects")) == "estimated_objects", "C10-manager", "_filter_objects", "est:objects", f"the estimate filter receives `{S(e_est.kwargs.get('objects'))[:60]}`", fi=fi)
-        ctx.check(GT in ("frame_ground_truth", "copy(frame_ground_truth)", "copy.copy(frame_ground_truth)"), "C10-manager", "_filter_objects", "gt:objects",
+        ctx.check(GT == "frame_ground_truth" or re.match(r"^(\w+\.)?copy\(frame_ground_truth\)$", GT) is not None, "C10-manager", "_filter_objects", "gt:objects",
                   f"the ground-truth filter receives `{S(e_gt.kwargs.get('objects'))[:60]}`; expected the frame's objects", fi=fi)
         for e, side in ((e_est, "est"), (e_gt, "gt")):
             ctx.check(S(e.kwargs.get("**")) == "self.filtering_params", "C10-manager", "_filter_objects", f"{side}:criteria", f"the {side} filter is configured by `{S(e.kwargs.get('**'))}`; expected **self.filtering_params", fi=fi)
